@@ -47,8 +47,30 @@ func c13Err(h string) error {
 		return pkgerrors.Wrap(c13Sentinel, "while handling")
 	case "transient":
 		return transientErr{c13Sentinel}
+	case "mutable":
+		return &c13MutErr{"sentinel failure"} // an error object that is reused with another text (see the warm-up in c13Run)
+	case "slice":
+		return c13SliceErr{"sentinel failure"} // a slice-typed error (validation errors): such values cannot be compared with ==
 	}
 	return nil
+}
+
+type c13MutErr struct{ text string }
+
+func (e *c13MutErr) Error() string { return e.text }
+
+type c13SliceErr []string
+
+func (e c13SliceErr) Error() string { return strings.Join(e, "; ") }
+
+// c13Same: a == b where that is defined, equality of the texts otherwise.
+func c13Same(a, b error) (same bool) {
+	defer func() {
+		if recover() != nil {
+			same = a != nil && b != nil && a.Error() == b.Error()
+		}
+	}()
+	return a == b
 }
 
 func c13Filter(f string) func(error) bool {
@@ -72,7 +94,7 @@ func c13Filter(f string) func(error) bool {
 func runC13(c *Ctx) error {
 	T := c.Trace("PoisonTrace")
 	var cases []c13Case
-	for _, h := range []string{"ok0", "ok2", "plain", "other", "fmtwrap", "pkgwrap", "transient", "plain+outs"} {
+	for _, h := range []string{"ok0", "ok2", "plain", "other", "fmtwrap", "pkgwrap", "transient", "plain+outs", "mutable", "slice"} {
 		for _, f := range []string{"plain", "all", "none", "is-sentinel", "not-transient", "text-transient", "text-while"} {
 			for _, p := range []bool{true, false} {
 				for _, m := range []string{"empty", "some", "poisoned"} {
@@ -156,7 +178,7 @@ func c13Run(r *tr.Run, cs c13Case) {
 	} else {
 		f := c13Filter(cs.Filter)
 		mw, err = middleware.PoisonQueueWithFilter(pp, "poison-topic", func(e error) bool {
-			r.Emit("filter", "same", e == herr)
+			r.Emit("filter", "same", c13Same(e, herr))
 			return f(e)
 		})
 	}
@@ -165,6 +187,7 @@ func c13Run(r *tr.Run, cs c13Case) {
 		return
 	}
 	endCtx := func() {}
+	ret := herr // what the handler returns
 	handler := func(msg *message.Message) ([]*message.Message, error) {
 		r.Emit("hcall")
 		endCtx()
@@ -172,18 +195,34 @@ func c13Run(r *tr.Run, cs c13Case) {
 		if cs.HRes == "ok2" || cs.HRes == "plain+outs" {
 			outs = []*message.Message{message.NewMessage("o1", nil), message.NewMessage("o2", nil)}
 		}
-		return outs, herr
+		return outs, ret
 	}
 	classify := func(e error) string {
 		switch {
 		case e == nil:
 			return "nil"
-		case e == herr:
+		case c13Same(e, herr):
 			return "same"
 		case herr != nil && strings.Contains(e.Error(), herr.Error()) && strings.Contains(e.Error(), pubErr.Error()):
 			return "both"
 		}
 		return "other: " + e.Error()
+	}
+	if cs.HRes == "mutable" || cs.HRes == "slice" {
+		// the SAME middleware instance has dealt with another failing message before (not part of the case: not recorded):
+		// with the very same error object under another text, or with another value of an error type that == cannot compare
+		r.Quiet(true)
+		if me, ok := herr.(*c13MutErr); ok {
+			me.text = "an earlier, different failure"
+		} else {
+			ret = c13SliceErr{"an earlier failure", "of two parts"}
+		}
+		_, _ = Guarded(func() { _, _ = mw(handler)(message.NewMessage(fmt.Sprintf("u%d-warmup", r.ID), []byte("warm-up"))) })
+		if me, ok := herr.(*c13MutErr); ok {
+			me.text = "sentinel failure"
+		}
+		ret = herr
+		r.Quiet(false)
 	}
 	msg := message.NewMessage(fmt.Sprintf("u%d", r.ID), []byte("the payload"))
 	for k, v := range c13Meta(cs.Meta) {
